@@ -361,3 +361,23 @@ Proof.
   intros Hne Hok. cbn zeta. unfold parse_csv_skip_blank. rewrite (csv_roundtrip kv0 extra0 rest Hne Hok).
   split; [reflexivity|]. intros H. now apply filter_all.
 Qed.
+
+(* ---------- the comparators used by the correspondence, pinned: one accepted and one rejected pair each ---------- *)
+Example text_eqb_pins :
+  text_eqb (list_ascii_of_string "ab") (list_ascii_of_string "ab") = true /\
+  text_eqb (list_ascii_of_string "ab") (list_ascii_of_string "ac") = false /\
+  text_eqb (list_ascii_of_string "ab") (list_ascii_of_string "a") = false /\ text_eqb [] (list_ascii_of_string "a") = false.
+Proof. repeat split. Qed.
+
+Example table_eqb_pins :
+  let T := fun s : string => list_ascii_of_string s in
+  field_eqb (FU (T "a"%string)) (FU (T "a"%string)) = true /\ field_eqb (FU (T "a"%string)) (FQ (T "a"%string)) = false /\ field_eqb (FQ (T "a"%string)) (FQ (T "b"%string)) = false /\
+  table_eqb [[FU (T "a"%string); FQ (T "b"%string)]; [FU []]] [[FU (T "a"%string); FQ (T "b"%string)]; [FU []]] = true /\
+  table_eqb [[FU (T "a"%string)]] [[FU (T "a"%string)]; [FU []]] = false /\ table_eqb [[FU (T "a"%string)]; [FU []]] [[FU (T "a"%string)]] = false /\
+  table_eqb [[FU (T "a"%string); FU (T "b"%string)]] [[FU (T "a"%string); FU (T "c"%string)]] = false /\ table_eqb [[FU (T "a"%string); FU (T "b"%string)]] [[FU (T "a"%string)]] = false.
+Proof. repeat split. Qed.
+
+Example first_diff_pins :
+  let T := fun s : string => list_ascii_of_string s in
+  first_diff (T "abc"%string) (T "abc"%string) 0 = None /\ first_diff (T "abc"%string) (T "abd"%string) 0 = Some 2 /\ first_diff (T "ab"%string) (T "abc"%string) 0 = Some 2.
+Proof. repeat split. Qed.
